@@ -316,6 +316,7 @@ Definition val_eqb (a b : value) : bool := vcompare a b =? 0.
 (* DISTINCT = the support, first occurrences kept in order *)
 Definition den_distinct (l : list row) : list row := distinct_from row_eqb [] l.
 Definition dedup_vals (l : list value) : list value := distinct_from val_eqb [] l.
+Definition row_in (r : row) (l : list row) : bool := existsb (fun x => row_eqb x r) l.
 
 (* a source row prepared for grouping: its key values and one input value per aggregate *)
 Definition keyed := (list value * list value)%type.
